@@ -1,16 +1,16 @@
-\* faithful model of finding F6 (AtomicRemove = FALSE: the range removal is a step of its own after the acknowledgement)
+\* C06, exhaustive: forks above the finalized block (any content), detector, restart at any step
 CONSTANTS
-  N = 3
-  Chunks = {2}
+  N = 4
+  Chunks = {1,2}
   TipTags = {"latest"}
   BufCap = 1
-  MaxForks = 2
+  MaxForks = 1
   MaxFails = 0
   MaxPFails = 0
   MaxRestarts = 0
   Detector = TRUE
   RetryLimit = 5
-  AtomicRemove = FALSE
+  AtomicRemove = TRUE
   Contents = {0,1}
   FinLag = 0
   NoIdle = FALSE
@@ -18,5 +18,5 @@ CONSTANTS
 INIT Init
 NEXT Next
 VIEW view
-INVARIANTS RewindLow
+INVARIANTS Ordered Faithful NoSkip Converged RewindLow TypeOK
 CHECK_DEADLOCK FALSE
